@@ -126,7 +126,7 @@ class Prop(BaseProp):
         for _ in range(n_ops):
             obj, mn = rng.choice(live)
             op = rng.choice(["text", "text", "field", "bullets", "enum", "directive", "directive", "option", "title", "clear",
-                             "str", "str"])
+                             "str", "str", "rename"])
             d = mn.depth
             if op == "text":
                 t = rng.choice(TEXTS)
@@ -171,6 +171,13 @@ class Prop(BaseProp):
                 nm = rng.choice(["maxdepth", "value", "noindex"])
                 obj.option(nm, f"v{{T{i}}}")
                 mn.options.append((nm, i))
+            elif op == "rename":
+                # the title of a nested directive is its name: changing it re-builds the directive heading
+                if mn.hid is None:
+                    continue
+                mn.name = rng.choice(["note", "warning", "function", "py:method", "tip"])
+                obj.title = mn.name
+                res.count("directive_renames")
             elif op == "title":
                 state["title"] = rng.choice(TITLES)
                 w.title = state["title"]
@@ -258,6 +265,8 @@ class Prop(BaseProp):
                     res.violate(f"{kind}-shape", f"line {l!r}", wit)
                 if kind == "heading":
                     c = extra
+                    if not l[len(ind):].startswith(f".. {c.name}:: "):
+                        res.violate("directive-heading-name", f"line {l!r}, directive is named {c.name!r}", wit)
                     res.count("option_blocks_checked")
                     want = [oi for _, oi in c.options]
                     follow = []
